@@ -653,6 +653,13 @@ func loadBasicSegment(sloc *SegmentLoc) (Segment, error) {
 		buf = sloc.mref.buf[bufStart : bufStart+sloc.BufBytes]
 	}
 
+	if buf == nil {
+		// A segment whose only entry is the empty key with an empty value
+		// has no buf bytes at all; keep buf non-nil so that readers can
+		// still tell that (present, empty) entry from an absent key.
+		buf = []byte{}
+	}
+
 	return &segment{
 		kvs:             kvs,
 		buf:             buf,
